@@ -8,19 +8,22 @@ Property theorems only; the model is `Model/SyncRecv.lean` (one step = one `sync
 (`Gen/TsyncSkel.lean` via `Model/TsyncFacts.lean`).  Every theorem quantifies over ALL step sequences
 (`steps : List Step` — every interleaving of the I/O thread's data/close deliveries with the application's receives, wake-ups,
 timeouts, spurious wake-ups, mode switches and flush steps, over any number of sessions) that respect the environment
-contract `Disciplined` (engine: no data / second close after a close, no empty chunk; application: one thread drives a
-session's blocking calls).
+contract `Disciplined` (engine: no data / second close after a close — zero-length chunks ARE legal arrivals; application: one
+thread drives a session's blocking calls).
 -/
 namespace Iora.C03
 open Iora Iora.SyncRecv
 
 /-- The skeleton facts the model is instantiated from hold of the regenerated skeleton: predicate writes of `buf->cv`
 (`hasData`, `overflow`, `closed`) are made under `syncMutex` and followed by a notify under the same lock; the handler reads
-the mode and appends under one lock acquisition; the flush invokes the user callback with no Transport mutex held. -/
+the mode and appends under one lock acquisition; the flush invokes the user callback with no Transport mutex held; `hasData` is
+computed from the BUFFER after the append (FC03a); `receiveSync` keys its drain on the buffer being non-empty; and the flush
+loop switches the mode to Async only in a critical section that found the buffer empty — never in the one that took bytes. -/
 theorem skeleton_conforms :
     (∀ mb gc al, (genCfg mb gc al).Good) ∧ TsyncFacts.modeReadAndAppendUnderOneLock = true ∧
-    TsyncFacts.flushCallbackUnlocked = true := by
-  refine ⟨fun mb gc al => ?_, by decide, by decide⟩
+    TsyncFacts.flushCallbackUnlocked = true ∧ TsyncFacts.hasDataMirrorsBuffer = true ∧
+    TsyncFacts.drainKeyedOnBuffer = true ∧ TsyncFacts.flushSwitchesModeOnlyOnEmptyPass = true := by
+  refine ⟨fun mb gc al => ?_, by decide, by decide, by decide, by decide, by decide⟩
   exact ⟨show TsyncFacts.notifyOnData = true by decide, show TsyncFacts.notifyOnOverflow = true by decide,
     show TsyncFacts.notifyOnClose = true by decide⟩
 
@@ -154,5 +157,13 @@ example : (run cfg10 init
      .ioClose 1, .recvEnter 1 9]).2 =
     [.modeRet 1 true, .recvRet 1 (.ok [1,2]), .cbData 1 [3], .cbData 1 [4], .modeRet 1 true, .cbData 1 [5],
      .recvRet 1 .peerClosed] := by decide
+
+/-- zero-length chunks are legal arrivals (FC03a): on an empty buffer the receive keeps waiting (no bogus ShuttingDown); behind
+buffered bytes nothing is hidden — the bytes are returned, then EOF -/
+example : disciplinedB cfg10 init [.setMode 1 .sync, .ioData 1 [], .recvEnter 1 4] = true ∧
+    (run cfg10 init [.setMode 1 .sync, .ioData 1 [], .recvEnter 1 4]).2 = [.modeRet 1 true] := by decide
+example : disciplinedB cfg10 init [.setMode 1 .sync, .ioData 1 [65, 65, 65, 65], .ioData 1 [], .ioClose 1, .recvEnter 1 8, .recvEnter 1 8] = true ∧
+    (run cfg10 init [.setMode 1 .sync, .ioData 1 [65, 65, 65, 65], .ioData 1 [], .ioClose 1, .recvEnter 1 8, .recvEnter 1 8]).2 =
+      [.modeRet 1 true, .recvRet 1 (.ok [65, 65, 65, 65]), .recvRet 1 .peerClosed] := by decide
 
 end Iora.C03
